@@ -4,6 +4,6 @@
 int main() {
     using namespace tbb::detail::d2;
     typedef hash_buffer<int, int, type_to_key_function_body<int,int>, tbb::detail::d1::tbb_hash_compare<int>> HB;
-    printf("{\"initialBufferSize\": %zu, \"hashInitialSize\": %zu}\n",
-           (size_t)item_buffer<int>::initial_buffer_size, (size_t)HB::INITIAL_SIZE);
+    printf("{\"initialBufferSize\": %zu, \"hashInitialSize\": %zu, \"sizeofSizeT\": %zu}\n",
+           (size_t)item_buffer<int>::initial_buffer_size, (size_t)HB::INITIAL_SIZE, sizeof(item_buffer<int>::size_type));
 }
